@@ -25,7 +25,7 @@ for l in full:
 missing = [k for k in new if k not in seen]
 assert not missing, missing
 bad = [l for l in out if key(l) and not (('clean' == key(l)[0] and 'exit=0 violations=0' in l) or ('seed' == key(l)[0] and ' exit=1 ' in l) or ('mutant' == key(l)[0] and 'suite_exit=0 check_exit=1 ' in l))]
-out.insert(1, '== lines of %s refreshed by a partial run after the checks of these properties were changed' % ' '.join(sorted({k[1][:3] for k in new})))
+out.insert(1, '== lines of %s refreshed by a partial run after the checks of these properties were changed' % ' '.join(sorted({k[1][:3] for k in new if k[0] != "mutant"})))
 out.append('== overall: %s' % ('PASS' if not bad else 'FAIL'))
 open('/verif/selftest/RESULT.txt', 'w').write('\n'.join(out) + '\n')
 print(out[-1], len(new), 'lines replaced;', len(bad), 'bad')
